@@ -661,7 +661,13 @@ func (e *Env) evalCall(n *ast.CallExpr) Term {
 			list = rec.Results
 		}
 		if i < 0 || i >= len(list) {
-			e.fail(n, "%s(%d, %d): index out of range", name, k, i)
+			// the k-th logged call on this path is a different callee with fewer values: unconstrained
+			return e.st.sc.fresh("nocall", e.u().sortOf(e.typeOf(n)))
+		}
+		if len(typeArgs) > 0 {
+			if ws := e.u().sortOf(e.typeOf(typeArgs[0])); ws != list[i].Sort {
+				return e.st.sc.fresh("nocall", ws) // a different callee on this path
+			}
 		}
 		return list[i]
 	case "lastres", "lastarg":
